@@ -304,12 +304,13 @@ func main() {
 		c   *tcase
 		w   int
 		rep int
+		n   int
 	}
 	var jobs []job
 	for _, c := range cases {
 		for _, w := range workers {
 			for r := 0; r < reps; r++ {
-				jobs = append(jobs, job{c, w, r})
+				jobs = append(jobs, job{c, w, r, len(jobs)})
 			}
 		}
 	}
@@ -325,7 +326,12 @@ func main() {
 		}
 		defer traceOut.Close()
 	}
-	maxTraced := 400 * reps
+	// traced runs are spread evenly over the jobs
+	maxTraced := 500
+	traceEvery := (len(jobs) + maxTraced - 1) / maxTraced
+	if traceEvery < 1 {
+		traceEvery = 1
+	}
 	samples := 0
 
 	// with hooks the runs are sequential (the hook is one package-level variable); without, 8 at a time
@@ -374,7 +380,7 @@ func main() {
 				args := generatecmd.Arguments{Path: root, WorkerCount: j.w, KeepOrphanedFiles: c.Flags.Keep, Lazy: c.Flags.Lazy, IncludeVersion: c.Flags.Ver}
 				var fl []failure
 				var trace []traceLine
-				record := hooksPresent && traceOut != nil
+				record := hooksPresent && traceOut != nil && j.n%traceEvery == 0
 				rng := rand.New(rand.NewSource(seed*1000003 + int64(c.ID)*31 + int64(j.w)*7 + int64(j.rep)))
 				for run := 1; run <= 2; run++ {
 					if record {
@@ -416,7 +422,7 @@ func main() {
 				}
 				mu.Lock()
 				runs++
-				if record && len(fl) == 0 && traced < maxTraced {
+				if record && len(fl) == 0 {
 					traced++
 					for _, l := range trace {
 						b, _ := json.Marshal(l)
